@@ -1681,7 +1681,10 @@ class FunctionVerifier:
                 if kwd.arg == "pattern":
                     v = self.ev(kwd.value, sq, False)
                     pats.append(v.e if isinstance(v, (SInt, SBool)) else v.v)
-            st.assume(z3.ForAll([gc], body, patterns=pats) if pats else z3.ForAll([gc], body))
+            try:
+                st.assume(z3.ForAll([gc], body, patterns=pats) if pats else z3.ForAll([gc], body))
+            except z3.Z3Exception:
+                st.assume(z3.ForAll([gc], body))
             return [(st, FALL)]
         if not (isinstance(ce, ast.Call) and isinstance(ce.func, ast.Name) and ce.func.id == "forall_intro" and len(ce.args) == 4 and isinstance(ce.args[0], ast.Name)):
             raise VerifError("unsupported with-block in ghost code: %s" % ast.unparse(ce)[:60])
